@@ -17,7 +17,7 @@ JOBS = {'quick': 4, 'thorough': 16}
 REQUIRED_MONITORS = ('trace_checked', 'metropolis_direct', 'acceptance_draw_observed')
 REQUIRED_CLASSES = ('types:(0,)', 'types:(1,)', 'types:(2,)', 'types:(0, 1, 2)', 'types:(0, 1)', 'budget:1', 'budget:2',
                     'budget:>=100', 'restraints:none', 'restraints:partial', 'restraints:all-fixed', 'worse-accepted',
-                    'worse-rejected', 'improved', 'units:small', 'units:large', 'proposal:translation', 'proposal:rotation', 'proposal:atom-move')
+                    'worse-rejected', 'improved', 'units:small', 'units:large', 'proposal:non-finite-measure', 'proposal:translation', 'proposal:rotation', 'proposal:atom-move')
 RULE = ('runs of minimize_molecules over (mobile molecule: random tree / cyclic graph 1..25 atoms) x (fixed set 1..40 points) '
         'x deformation-type subset x step budget {1,2,3,10,100,2000, random} x restraint class x seed. Every step of every run '
         'is checked. Non-trivial run: at least one accepted and one rejected proposal. distinct = distinct (n_mobile, n_fixed, '
@@ -75,8 +75,32 @@ def run_run(ctx, case):
     types = TYPES[i % len(TYPES)]
     nm = int(rng.integers(2 if 2 in types else 1, 26))
     cyclic = nm >= 3 and rng.random() < 0.25
+    fan = i % 9 == 4
+    if fan:
+        types = [(2,), (0, 1, 2), (0, 2), (1, 2)][(i // 9) % 4]
+        nm = int(rng.integers(4, 8))
+        cyclic = False
     edges = gen.random_connected_graph(rng, nm, 'cyclic')[1] if cyclic else gen.random_tree(rng, nm)
+    if fan:
+        edges = gen.random_connected_graph(rng, nm, 'star')[1]
     pos = gen.embed_graph(rng, nm, edges) if nm > 1 else rng.normal(size=(1, 3))
+    if fan:
+        # idealised geometry: all atoms bonded to one atom lie on a straight line, so a single-atom move of that atom has no
+        # defined direction and its proposal has no finite measure
+        adj = gen.adjacency(nm, edges)
+        hubs = [a for a in range(nm) if len(adj[a]) >= 3]
+        if hubs:
+            c = hubs[int(rng.integers(0, len(hubs)))]
+            u = np.eye(3)[int(rng.integers(0, 3))] if rng.random() < 0.5 else rng.normal(size=3)
+            u = u / np.linalg.norm(u)
+            v = np.cross(u, rng.normal(size=3))
+            v = 0.25 * v / np.linalg.norm(v)
+            trial = pos.copy()
+            for k, nb in enumerate(sorted(adj[c])):
+                trial[nb] = trial[c] + v + (k - 1) * 0.2 * u
+            if gen.min_pair_distance(trial) > 1e-3:
+                pos = trial
+                ctx.hit('mobile:collinear-neighbours')
     mob = gen.make_molecule('MOB', gen.atom_names(nm, 'B'), edges, pos)
     nf = int(rng.integers(1, 41))
     fixed = gen.random_positions(rng, nf) + rng.normal(size=3) * rng.choice([0.0, 0.5, 3.0])
@@ -86,6 +110,8 @@ def run_run(ctx, case):
     budget = BUDGETS[(i // len(TYPES)) % len(BUDGETS)] if rng.random() < 0.7 else int(rng.integers(1, 2001 if big_ok else 120))
     if budget > 120 and not big_ok:
         budget = 100
+    if fan:
+        budget = max(budget, 60)
     bonds = mob.bonds_distance if nm > 1 else {}
     initial = np.array(mob.atoms_positions)
     # length unit of the whole problem: nm, Angstrom-like (x10), micrometres (x1e-3), 1e-5 and 1e3
@@ -122,6 +148,9 @@ def run_run(ctx, case):
     ctx.count('steps_checked', stats['steps'])
     ctx.count('accepted', stats['accepted'])
     ctx.count('worse_proposals', stats['worse'])
+    if stats.get('nonfinite'):
+        ctx.count('proposals_without_finite_measure', stats['nonfinite'])
+        ctx.hit('proposal:non-finite-measure')
     ctx.count('worse_accepted', stats['worse_accepted'])
     ctx.count('worse_p_sum_x1e6', int(stats['p_sum'] * 1e6))
     ctx.count('worse_pq_sum_x1e6', int(stats['pq_sum'] * 1e6))
@@ -181,6 +210,13 @@ def run_direct(ctx, case):
         for k in range(n):
             cls = int(rng.integers(0, 5))
             e0 = float(10.0 ** rng.uniform(-6, 6))
+            if k % 500 == 499:
+                # a proposal whose measure is not a number is never "equal or lower" and has no acceptance probability
+                d = bool(acc(e0, float('nan')))
+                ctx.monitor('metropolis_direct')
+                if d:
+                    ctx.violation('non-finite-proposal-accepted', f'accept_metropolis({e0!r}, nan) = True', witness={'e0': e0})
+                continue
             if cls == 0:
                 e1 = e0
             elif cls == 1:
